@@ -87,6 +87,8 @@ EnvPoints ==
          \cup {[EnvBase EXCEPT !.mask = ms, !.disp = d, !.wd = w] : ms \in Masks, d \in Disps, w \in {"", "/d"}}
          \cup {[EnvBase EXCEPT !.limit = -1, !.mask = ms] : ms \in {<<>>, <<15>>}}   \* no descriptor limit: start must refuse cleanly
   IN {Opt(<<U, U, U>>, NoSh, -1, FALSE, TRUE) @@ [x |-> v] : v \in vary}
+     \* start-up input (the one path on which start itself writes to a pipe) with handlers for SIGPIPE and others installed
+     \cup {Opt(<<U, U, U>>, NoSh, 3, FALSE, TRUE) @@ [x |-> [EnvBase EXCEPT !.disp = d]] : d \in {<<<<13, 2>>>>, <<<<2, 2>>, <<13, 1>>>>, <<>>}}
 
 \* scenarios for the fault sweep (C04 C05 C06 C12): every redirect kind at some stream, the shorthands, start-up input,
 \* working directory + relative program, extra environment, a non-trivial signal state
